@@ -2,7 +2,15 @@
 {debug, release} x {even, odd}; the model driver evaluates the predicates of C01/C02/C03/C04/C07/C08/C13 directly on the
 implementation and compares with M2 and M1; the per-history digests of the four configurations give C16."""
 import os, re, core
-def translators(ctx, bins): pass
+def translators(ctx, bins=None):
+    """T7: the representation constants of bytes_mut.rs / bytes.rs -> Gen/Consts.v (the lemma that M2 uses exactly these is ConstsTie.consts_tie_holds, pinned in C02/C18)"""
+    import sys
+    sys.path.insert(0, os.path.join(core.ROOT, "translators"))
+    import t7_consts
+    st = t7_consts.generate(core.REPO, os.path.join(core.TH, "Gen", "Consts.v"))
+    ctx.cov.setdefault("translators", {})["T7"] = "ok" if st["ok"] else "problems"
+    ctx.cov["translators"]["constants_read"] = len(st.get("values", {}))
+    for pr in st["problems"]: ctx.tie.append({"kind": "translator", "detail": "T7: %s" % (pr,)})
 def run(ctx, bins):
     tier, seed, budget = ctx.tier, ctx.seed, ctx.budget
     def go():
